@@ -49,7 +49,12 @@ def check_C14(ctx):
     items, meta = [], {}
     for c in cases:
         r = dres.get(c["id"])
-        if not r or r.get("parse") != "ok" or "dump" not in r:
+        if not r or r.get("parse") != "ok":
+            continue
+        if "dump" not in r:
+            ctx.violation("an accepted program has no version-1.1 dump: Dump %s %s" % (r.get("dump_class"), r.get("dump_err", "")[:200]),
+                          dict(src_hex=c["src_hex"][:2000], name=c["name"][:100]), impl=r.get("dump_err"), theorem="C14_layout",
+                          key="dump-fails")
             continue
         meta[c["id"]] = (c, r)
         items.append(("fmtdecode", c["id"] + "/dec", bytes.fromhex(r["dump"])))
